@@ -182,6 +182,16 @@ def zoo_recipe(rng, tier):
     kind = ["mean_changes", "spikes", "collective", "small_alphabet", "piecewise_const",
             "noise"][int(rng.integers(6))]
     X, _ = gen_data(rng, n, p, kind)
+    if spec["cls"] == "MVCAPA" and rng.random() < 0.5:
+        # weak anomalies shared by all columns under a collective penalty with a light constant term:
+        # every column's saving can stay below the per-column penalty of the column inference while the
+        # anomaly is still detected (the dense output must show it all the same)
+        spec["kw"]["collective_penalty"] = {"fn": ["pen_zero", "pen_zero_alpha_equal_betas", "pen_const_only"][
+            int(rng.integers(3))]}
+        spec["kw"]["collective_penalty_scale"] = float([0.05, 0.2, 0.5, 1.0][int(rng.integers(4))])
+        X = rng.standard_normal((n, p))
+        a = int(rng.integers(0, max(1, n - 4)))
+        X[a:a + int(rng.integers(3, max(4, n // 2)))] += float(rng.uniform(0.4, 1.2)) * rng.choice([-1, 1])
     return {"kind": "zoo", "det": spec, "X": X, "index": (INDEX_KINDS + TIED_INDEX_KINDS)[int(rng.integers(7))],
             "variant": [None, None, "edited_between", "output_edited"][int(rng.integers(4))],
             "vseed": int(rng.integers(2 ** 31)),
